@@ -115,14 +115,15 @@ def bydayInMonth (r : Rule) (x : Inst) : Prop :=
 def bydayInYear (r : Rule) (x : Inst) : Prop :=
   ∃ t ∈ r.dow, wdOf t = wdayOf (dayOf x) ∧
     (ordOf t = 0 ∨ NthWeekday (ordOf t) (days x.y 1 1) (days x.y 12 31) (dayOf x))
-/-- BYDAY as a plain weekday limit (ordinals ignored) -/
+/-- BYDAY as a plain weekday limit (used with BYWEEKNO, where RFC 5545 allows no numbered entries) -/
 def bydayLimit (r : Rule) (x : Inst) : Prop := ∃ t ∈ r.dow, wdOf t = wdayOf (dayOf x)
 
 /-- FREQ=MONTHLY: every INTERVAL-th month from DTSTART's; BYMONTH limits; BYMONTHDAY expands; BYDAY limits if
-BYMONTHDAY is present, else expands within the month; with neither, DTSTART's day of month -/
+BYMONTHDAY is present (a numbered entry then admits the n-th such weekday of the month only), else expands within the
+month; with neither, DTSTART's day of month -/
 def MonthlyInst (r : Rule) (ds x : Inst) : Prop :=
   SameKind ds x ∧ (∃ k : Nat, (x.y : Int) * 12 + x.m = (ds.y : Int) * 12 + ds.m + k * r.inter) ∧ monthOk r x ∧
-  (if r.dom ≠ [] then mdayOk r x ∧ (r.dow = [] ∨ bydayLimit r x)
+  (if r.dom ≠ [] then mdayOk r x ∧ (r.dow = [] ∨ bydayInMonth r x)
    else if r.dow ≠ [] then bydayInMonth r x
    else x.d = ds.d) ∧
   TimeExp r ds x
@@ -136,14 +137,15 @@ def weeknoOk (r : Rule) (x : Inst) : Prop :=
     1 ≤ w ∧ w ≤ isoWeeks x.y ∧ week1Start x.y + 7 * (w - 1) ≤ dayOf x ∧ dayOf x < week1Start x.y + 7 * w
 
 /-- FREQ=YEARLY: every INTERVAL-th year from DTSTART's; BYMONTH, BYWEEKNO, BYYEARDAY, BYMONTHDAY expand (each restricts
-the dates of the year); BYDAY limits if BYYEARDAY or BYMONTHDAY is present, else selects weekdays within the weeks of
+the dates of the year); BYDAY limits if BYYEARDAY or BYMONTHDAY is present (a numbered entry counting within the month
+when BYMONTH is given, within the year otherwise), else selects weekdays within the weeks of
 BYWEEKNO, else within the months of BYMONTH, else within the year; with no BYxxx date part at all, DTSTART's month and
 day; with BYMONTH alone DTSTART's day; with BYWEEKNO alone DTSTART's weekday -/
 def YearlyInst (r : Rule) (ds x : Inst) : Prop :=
   SameKind ds x ∧ (∃ k : Nat, x.y = ds.y + k * r.inter) ∧
   monthOk r x ∧ (r.wk = [] ∨ weeknoOk r x) ∧ ydayOk r x ∧ mdayOk r x ∧
   (if r.dow ≠ [] then
-     (if r.doy ≠ [] ∨ r.dom ≠ [] then bydayLimit r x
+     (if r.doy ≠ [] ∨ r.dom ≠ [] then (if r.mon ≠ [] then bydayInMonth r x else bydayInYear r x)
       else if r.wk ≠ [] then bydayLimit r x
       else if r.mon ≠ [] then bydayInMonth r x
       else bydayInYear r x)
